@@ -8,15 +8,16 @@
 set -u
 exec </dev/null
 ROOT="$(cd "$(dirname "$0")/.." && pwd)"
+REPO="${VP_RUN_REPO:-/repo}"
 OUT="$1"; shift
 SEEDS="${*:-$(ls "$ROOT/seeded")}"
 CHECKS="${CHECKS:-C01 C02 C03 C04 C05 C06 C07 C08 C09 C10 C11 C12 C13 C14 C15 C16 C17 C18 C19 C20}"
 mkdir -p /tmp/sm
 for ID in $SEEDS; do
   WT=/tmp/sm/$ID-repo; H=/tmp/sm/$ID-h; VR=/tmp/sm/$ID-root
-  rm -rf "$WT" "$H" "$VR"; git -C /repo worktree prune
-  git -C /repo worktree add -q --detach "$WT" HEAD || continue
-  if ! git -C "$WT" apply "$ROOT/seeded/$ID/patch.diff"; then echo "$ID - patch-does-not-apply" >> "$OUT"; git -C /repo worktree remove --force "$WT"; continue; fi
+  rm -rf "$WT" "$H" "$VR"; git -C "$REPO" worktree prune
+  git -C "$REPO" worktree add -q --detach "$WT" HEAD || continue
+  if ! git -C "$WT" apply "$ROOT/seeded/$ID/patch.diff"; then echo "$ID - patch-does-not-apply" >> "$OUT"; git -C "$REPO" worktree remove --force "$WT"; continue; fi
   mkdir -p "$H" "$VR"
   rsync -a --exclude target "$ROOT/harness/" "$H/"
   mkdir -p /tmp/sm/probe_rt_parent_$ID;
@@ -37,7 +38,7 @@ for ID in $SEEDS; do
       echo "$ID $c $code $((end-start))s $sigs" >> "$OUT"
     done
   fi
-  git -C /repo worktree remove --force "$WT" >/dev/null 2>&1
+  git -C "$REPO" worktree remove --force "$WT" >/dev/null 2>&1
   rm -rf "$WT" "/tmp/sm/$ID-layout" "$VR" /tmp/sm/$ID-*.log
 done
 echo "DONE $SEEDS" >> "$OUT"
